@@ -192,7 +192,7 @@ func cmdCheck(prop, tier, only string, workers int) int {
 	if v, ok := meta.MaxPaths[tier]; ok {
 		maxPaths = v
 	}
-	timeout := 60 * time.Second
+	timeout := 180 * time.Second // generous: a loaded machine must not turn a 1 s query into an "unknown"
 	if thorough {
 		timeout = 300 * time.Second
 	}
@@ -382,6 +382,9 @@ func cmdCheck(prop, tier, only string, workers int) int {
 
 // harnessSolver: harnesses whose name ends in _arith use cvc5 with int-blasting.
 func harnessSolver(name, def string) string {
+	if v := os.Getenv("GOSYM_SOLVER"); v != "" { // experiments only
+		return v
+	}
 	if strings.Contains(name, "_arith") {
 		return "portfolio"
 	}
